@@ -46,6 +46,15 @@ def check_one(pid, tier, seed, repo=None):
                 # still write evidence so the failure is diagnosable
                 report.finish(ctx, t0, seed, mod.EXPLANATION, getattr(mod, 'LEVEL_NOTE', None), selftest)
                 return 2
+            from . import sweep
+            sw = sweep.run(pid, jobs=int(os.environ.get('VERIF_JOBS', '16')))
+            selftest['rename_sweep'] = sw
+            if sw['false_alarms']:
+                for fa in sw['false_alarms']:
+                    print(f'ANALYSIS-ERROR property={pid} rule=rename-sweep reason={fa["status"]} on a pure rename of the locals of '
+                          f'{fa["file"]}: {fa["findings"]}')
+                report.finish(ctx, t0, seed, mod.EXPLANATION, getattr(mod, 'LEVEL_NOTE', None), selftest)
+                return 2
         return report.finish(ctx, t0, seed, mod.EXPLANATION, getattr(mod, 'LEVEL_NOTE', None), selftest)
     except AnalysisError as e:
         print(f'ANALYSIS-ERROR property={pid} rule={e.rule} reason={e.reason}')
